@@ -66,8 +66,8 @@ struct XofLike {
     int iface;
     union { ascon_hash_state_t h; ascon_hasha_state_t ha; ascon_xof_state_t x; ascon_xofa_state_t xa; ascon_prf_state_t p;
             ascon_kmac_state_t km; ascon_kmaca_state_t kma; ascon_kdf_state_t kd; ascon_kdfa_state_t kda; } *s;
-    explicit XofLike(int i) : iface(i) { s = (decltype(s))malloc(sizeof(*s)); memset(s, 0xA5, sizeof(*s)); }
-    ~XofLike() { free(s); }
+    explicit XofLike(int i) : iface(i) { s = (decltype(s))xalloc(sizeof(*s)); memset(s, 0xA5, sizeof(*s)); }
+    ~XofLike() { xfree(s, sizeof(*s)); }
     void init(bool re, const Bytes &key, const Bytes &custom, size_t declared) {
         Buf k(key), cu(custom);
         switch (iface) {
@@ -265,7 +265,7 @@ static std::string check_aead_inc(const KV &c, int alg, bool decrypt) {
     Bytes ct = lib::enc_generic(lib::AEAD_ENC[alg], key, nonce, ad, data);
     Bytes input = decrypt ? Bytes(ct.begin(), ct.end() - 16) : data;
     Bytes want = decrypt ? data : Bytes(ct.begin(), ct.end() - 16);
-    typename A::state_t *s = (typename A::state_t *)malloc(sizeof(typename A::state_t));
+    typename A::state_t *s = (typename A::state_t *)xalloc(sizeof(typename A::state_t));
     memset(s, 0xA5, sizeof(*s));
     Buf k(key), n(nonce), a(ad);
     if (tonum(c, "reinit")) {
@@ -293,7 +293,7 @@ static std::string check_aead_inc(const KV &c, int alg, bool decrypt) {
         } else {
             Buf in(piece), o(ch);
             if (decrypt) A::decb(s, in.p, o.p, ch); else A::encb(s, in.p, o.p, ch);
-            if (in.bytes() != piece) { A::free_(s); free(s); return "input buffer modified"; }
+            if (in.bytes() != piece) { A::free_(s); xfree(s, sizeof(typename A::state_t)); return "input buffer modified"; }
             Bytes ob = o.bytes(); got.insert(got.end(), ob.begin(), ob.end());
         }
         pos += ch; ++idx;
@@ -301,9 +301,9 @@ static std::string check_aead_inc(const KV &c, int alg, bool decrypt) {
     int rc = 0;
     Bytes tag(ct.end() - 16, ct.end());
     if (decrypt) { Buf t(tag); rc = A::decf(s, t.p); }
-    else { Buf t(16); A::encf(s, t.p); if (t.bytes() != tag) { A::free_(s); free(s); return std::string(decrypt ? "dec" : "enc") + ": incremental tag (chunks " + tostr(c, "in_chunks") + ", inplace mask " + num(inplace) + ", reinit=" + tostr(c, "reinit") + ") differs from the one-shot tag"; } }
+    else { Buf t(16); A::encf(s, t.p); if (t.bytes() != tag) { A::free_(s); xfree(s, sizeof(typename A::state_t)); return std::string(decrypt ? "dec" : "enc") + ": incremental tag (chunks " + tostr(c, "in_chunks") + ", inplace mask " + num(inplace) + ", reinit=" + tostr(c, "reinit") + ") differs from the one-shot tag"; } }
     A::free_(s);
-    free(s);
+    xfree(s, sizeof(typename A::state_t));
     if (got != want) return std::string(decrypt ? "dec" : "enc") + " alg " + num(alg) + ": incremental blocks (chunks " + tostr(c, "in_chunks") + ", inplace mask " + num(inplace) + ", reinit=" + tostr(c, "reinit") + ") differ from the one-shot result";
     if (decrypt && rc != 0) return "dec alg " + num(alg) + ": decrypt_finalize rejected a valid tag (chunks " + tostr(c, "in_chunks") + ")";
     return "";
